@@ -206,6 +206,85 @@ SimplePaths(V, E, r, v) ==
                                  /\ (\A i \in 1 .. k - 1 : <<p[i], p[i + 1]>> \in E)} : k \in 1 .. Cardinality(V)}
 SDomDef(V, E, r, v) == {d \in V \ {v} : LET PS == SimplePaths(V, E, r, v) IN PS # {} /\ \A p \in PS : d \in Rng(p)}
 
+(************************ control flow intervals (graph/flow) ***************)
+(* Allen & Cocke, "A program data flow analysis procedure" (the paper gonum's flow.Intervals cites): the        *)
+(* interval I(h) is "the maximal, single entry subgraph for which h is the entry node and in which all closed   *)
+(* paths contain h".  Algorithm of the paper: I(h) starts as {h}; add any node all of whose immediate           *)
+(* predecessors are already in I(h), until no more can be added (the entry node n0 of the graph is a header     *)
+(* from the start and is never added to another interval); a node that is in no interval but has an immediate   *)
+(* predecessor in one becomes a header.  Predecessors are those of the WHOLE graph: a node that is also entered *)
+(* from a part of the graph the entry does not reach is entered from outside and is a header (single entry).    *)
+(* Two formulations: the growth (IvGrow, used as the oracle) and the definition as the union of every node set  *)
+(* with the named properties (IvDef); StructuralR1 IntervalOK proves them equal on every small digraph, that    *)
+(* the intervals partition the nodes the entry reaches, and that processing the headers one at a time in ANY    *)
+(* order (the paper's steps 1-5) yields the same family.                                                        *)
+RECURSIVE IvGrow(_, _, _)
+IvGrow(E, S, root) ==
+    LET T == S \cup {v \in SuccS(E, S) \ {root} : Pred(E, v) \subseteq S}
+    IN IF T = S THEN S ELSE IvGrow(E, T, root)
+Interval(E, root, h) == IvGrow(E, {h}, root)
+RECURSIVE IvHeaders(_, _, _)
+IvHeaders(E, root, H) ==
+    LET cov == UNION {Interval(E, root, h) : h \in H}
+        new == SuccS(E, cov) \ cov                    \* in no interval, with a predecessor in one
+    IN IF new = {} THEN H ELSE IvHeaders(E, root, H \cup new)
+Intervals(E, root) == {<<h, Interval(E, root, h)>> : h \in IvHeaders(E, root, {root})}      \* (header, node set)
+\* the derived graph: one node per interval; an edge I -> J (I # J) iff some edge of the graph leads from I into J
+IvGraphEdges(E, root) ==
+    LET IV == Intervals(E, root)
+    IN {<<ab[1][1], ab[2][1]>> : ab \in {x \in IV \X IV : x[1] # x[2] /\ \E e \in E : e[1] \in x[1][2] /\ e[2] \in x[2][2]}}
+\* the definition: every node set S with header h that is single entry (no node but h is entered from outside S),
+\* has h as its entry (h reaches every node of S inside S), has h on all its closed paths (nothing else lies on a
+\* cycle inside S) and does not swallow the entry of the graph
+PlusReach(Ex, v) == Grow(Ex, Succ(Ex, v))             \* reachable by at least one edge
+IvValid(E, root, h, S) ==
+    /\ h \in S /\ (root \in S => h = root)
+    /\ \A v \in S \ {h} : Pred(E, v) \subseteq S
+    /\ S \subseteq Reach(Induced(E, S), h)
+    /\ LET Ex == Induced(E, S \ {h}) IN \A v \in S \ {h} : v \notin PlusReach(Ex, v)
+IvDef(V, E, root, h) == UNION {S \in SUBSET V : IvValid(E, root, h, S)}
+\* the paper's procedure with the headers taken one at a time in every possible order: done = set of (header,
+\* interval) so far, pend = headers found and not yet processed
+RECURSIVE IvSeqAll(_, _, _, _)
+IvSeqAll(E, root, done, pend) ==
+    IF pend = {} THEN {done}
+    ELSE UNION {LET I == Interval(E, root, h)
+                    new == SuccS(E, I) \ (I \cup pend \cup {d[1] : d \in done})
+                IN IvSeqAll(E, root, done \cup {<<h, I>>}, (pend \ {h}) \cup new) : h \in pend}
+\* Classes of inputs (tags carried by every printed case; they only NAME the class in a failure signature):
+\*  "pending": at some step more than one header is waiting (the discovery is not a chain)
+\*  "fan": in the derived graph some interval has two successors or two predecessors
+\*  "reentry": the entry node has predecessors and all of them lie in one later interval (a reading of step 2.2
+\*             without the exception for the entry node would add the entry to that interval as well)
+\*  "unreach": a node the entry reaches is also entered from a part of the graph that the entry does not reach
+RECURSIVE IvChain(_, _, _, _)
+IvChain(E, root, cov, pend) ==
+    IF pend = {} THEN TRUE
+    ELSE /\ Cardinality(pend) = 1
+         /\ LET h == CHOOSE x \in pend : TRUE
+                I == Interval(E, root, h)
+            IN IvChain(E, root, cov \cup I, SuccS(E, I) \ (cov \cup I))
+IvTags(E, root) ==
+    LET IV == Intervals(E, root)
+        D == IvGraphEdges(E, root)
+        R == Reach(E, root)
+    IN (IF IvChain(E, root, {}, {root}) THEN {} ELSE {"pending"})
+       \cup (IF \E a \in IV : Cardinality({d \in D : d[1] = a[1]}) > 1 \/ Cardinality({d \in D : d[2] = a[1]}) > 1 THEN {"fan"} ELSE {})
+       \cup (IF Pred(E, root) # {} /\ \E a \in IV : a[1] # root /\ Pred(E, root) \subseteq a[2] THEN {"reentry"} ELSE {})
+       \cup (IF \E v \in R : ~(Pred(E, v) \subseteq R) THEN {"unreach"} ELSE {})
+
+(*************************** paths and graph equality (graph/topo) ***********)
+\* topo.IsPathIn: "returns whether path is a path in g.  As special cases, IsPathIn returns true for a zero
+\* length path or for a path of length 1 when the node in path exists in the graph."  A path is a sequence of
+\* nodes each joined to the next (directed: by an arc in that direction); nodes may repeat.
+IsPathIn(V, E, p) == CASE Len(p) = 0 -> TRUE
+                       [] Len(p) = 1 -> p[1] \in V
+                       [] OTHER -> \A i \in 1 .. Len(p) - 1 : <<p[i], p[i + 1]>> \in E
+\* topo.Equal: "To be considered topologically equal, a and b must have identical sets of nodes and be
+\* identically traversable": the same nodes and from every node the same successors.  (An undirected graph is
+\* its symmetric arc set, so it equals a directed graph exactly when that holds every edge in both directions.)
+TopoEqual(Va, Ea, Vb, Eb) == Va = Vb /\ \A u \in Va : Succ(Ea, u) = Succ(Eb, u)
+
 (***************************** traversal ************************************)
 RECURSIVE LayersFrom(_, _, _)
 LayersFrom(E, frontier, seen) ==
@@ -254,6 +333,8 @@ MinCols(E, todo, col, used) ==
          IN Min({MinCols(E, todo \ {v}, [u \in DOMAIN col \cup {v} |-> IF u = v THEN c ELSE col[u]],
                          IF c > used THEN c ELSE used) : c \in opts})
 Chi(V, E) == MinCols(E, V, <<>>, 0)
+\* coloring.Sets: "the mapping from colors to sets of node IDs"
+ColourClasses(col) == {<<k, {v \in DOMAIN col : col[v] = k}>> : k \in {col[v] : v \in DOMAIN col}}
 \* bounded search with the same symmetry breaking, for big graphs: is there a proper colouring with <= k colours?
 RECURSIVE KColourableFrom(_, _, _, _, _)
 KColourableFrom(E, todo, col, used, k) ==
